@@ -238,9 +238,13 @@ Definition unroll_child (p : tree) (i : nat) : result tree :=
               else Ok (set_ch p (firstn i (t_ch p) ++ unrolled c ++ skipn (S i) (t_ch p)))
   end.
 
-(* Loop.unroll_children *)
+(* Loop.unroll_children: a leaf raises RuntimeError (repaired in /repo deb6579; before, the count of a leaf was reset to
+   1 and its waveform kept) *)
 Definition unroll_children (t : tree) : tree :=
   let 'Node rep w m ch := t in Node 1 w m (rep_list (Z.to_nat rep) ch).
+
+Definition unroll_children_op (t : tree) : result tree :=
+  if is_leaf t then Err ERuntime else Ok (unroll_children t).
 
 (* Loop.encapsulate *)
 Definition encapsulate (t : tree) : tree :=
@@ -257,9 +261,6 @@ Definition py_index (len : nat) (i : Z) : option nat :=      (* list.__getitem__
   if (0 <=? i) && (i <? Z.of_nat len) then Some (Z.to_nat i)
   else if (i <? 0) && (0 <=? i + Z.of_nat len) then Some (Z.to_nat (i + Z.of_nat len))
   else None.
-
-Definition py_slice_pos (len : nat) (i : Z) : nat :=        (* start of the slice [i:i] *)
-  if i <? 0 then Z.to_nat (Z.max 0 (i + Z.of_nat len)) else Z.to_nat (Z.min i (Z.of_nat len)).
 
 Definition set_rep (t : tree) (r : Z) := let 'Node _ w m c := t in Node r w m c.
 
@@ -283,10 +284,10 @@ Definition split_one_child (t : tree) (idx : option Z) : result tree :=
           | Some c =>
               if t_rep c <? 2 then Err EValue
               else
-                (* self[child_index].repetition_count -= 1 ; self[child_index+1:child_index+1] = (copy,) *)
+                (* a negative index is normalised first (repaired in /repo c1f4310), then
+                   self[child_index].repetition_count -= 1 ; self[child_index+1:child_index+1] = (copy,) *)
                 let ch1 := update_nth ch k (set_rep c (t_rep c - 1)) in
-                let pos := py_slice_pos n (i + 1) in
-                Ok (set_ch t (firstn pos ch1 ++ [set_rep c 1] ++ skipn pos ch1))
+                Ok (set_ch t (firstn (S k) ch1 ++ [set_rep c 1] ++ skipn (S k) ch1))
           end
       end
   | None =>
@@ -484,8 +485,12 @@ Fixpoint roll_constant_waveforms (min_quanta quantum : Z) (sr : Q) (t : tree) : 
   | Node rep (Some x) _ ch =>
       if quantum =? 0 then Err EZeroDiv
       else
-        (* waveform_quanta = (duration * sample_rate) // quantum  — FLOOR division, as in the code *)
-        let wq := Qfloor (wf_dur x * sr / inject_Z quantum) in
+        (* waveform_quanta = duration * sample_rate / quantum must be a whole number (repaired in /repo 239f058; the
+           code used floor division and changed the duration of waveforms that are not a multiple of the quantum) *)
+        let wqq := (wf_dur x * sr / inject_Z quantum)%Q in
+        if negb (q_is_int wqq) then Ok (Node rep (Some x) [] ch)
+        else
+        let wq := q_int wqq in
         if wq <? min_quanta * 2 then Ok (Node rep (Some x) [] ch)
         else match cvd x with
              | None => Ok (Node rep (Some x) [] ch)
